@@ -289,6 +289,32 @@ def run(ctx):
                    'self.%s is modified (line %s) on the way to parking the tail at line %s: the update is decided by a line that may be incomplete, so a chunk ending at that point decodes differently from the unsplit stream' % (touched[0][0], touched[0][1], dst.get('ln')), line=dst.get('ln'))
     ctx.floor('C15.9', 'tail-parking sites in SseDecoder::push', n9, 2)
 
+    # ---------------------------------------------------------------- C15.10
+    ctx.rule('C15.10', 'whether an event is dispatched is decided by how many data lines it had, not by what they contained: the innermost test guarding parse_event in SseDecoder::push that looks at a decoder field must not be the emptiness / length of accumulated TEXT (String / str) — `data:` followed by a blank line is a server-sent event with an empty payload and owes a frame (and an empty first line of a multi-line payload must survive).')
+    pe_calls = dec.calls(r'SseDecoder::parse_event$')
+    ctx.floor('C15.10', 'parse_event calls in SseDecoder::push', len(pe_calls), 1)
+    for pe in pe_calls:
+        guards = []
+        for (bi, on, ts, els) in switches(dec):
+            if not dec.dom(bi, pe.bb) or bi == pe.bb:
+                continue
+            o = dec.origin(on)
+            if o[0] == 'call' and o[1].args:
+                recv = o[1].args[0]
+                src_ = sources(dec, recv)
+                fld = [x for x in src_ if x[0] == 'field' and x[1] in ('current_data', 'current_event')] if False else None
+                rl = reads_locals(dec, recv)
+                if 1 in rl:
+                    guards.append((bi, o[1]))
+        if not guards:
+            ctx.ob('C15.10', dec, 'dispatch-by-line-count', True, 'parse_event is not guarded by a test of decoder state', line=pe.line)
+            continue
+        gb, gs = max(guards, key=lambda g_: len([x for x in range(len(dec.blocks)) if dec.dom(x, g_[0])]))
+        texty = bool(re.search(r'^core::str::<impl str>::(is_empty|len)$|^alloc::string::String::(is_empty|len)$', gs.callee or ''))
+        ctx.ob('C15.10', dec, 'dispatch-by-line-count', not texty,
+               'the dispatch test is %s' % (gs.callee.rsplit('::', 2)[-2] + '::' + gs.name if not texty else
+               '%s on accumulated TEXT (line %s): an event whose data is the empty string yields no frame, and "no data line yet" cannot be told from "one empty data line"' % (gs.name, gs.line)), line=gs.line)
+
     # ---------------------------------------------------------------- C15.6
     ctx.rule('C15.6', 'payload verbatim at the source: every ParsedEvent the decoder builds stores its raw / data / event fields straight from the constructor parameters (through Some / clone only) — never the result of a validation or normalisation helper (validation works on a copy; the frame carries what the provider sent). And in OpenResponsesSsePipe::push_sse_str every chunk reaches SseDecoder::push, unconditionally and unmodified: a chunk skipped because of what it contains (blank, padding) changes where events end.')
     TRANSP = r'::clone$|::to_string$|::to_owned$|::into$|::from$|::as_ref$|::deref$|::as_str$|::borrow$'
